@@ -164,7 +164,7 @@ func c09Child(args []string) int {
 		t := newTM(*dir)
 		_ = t.Load()
 		_ = t.UpdateTargets(&shard.UpdateTargetsRequest{Targets: P})
-		if *mode == "update" {
+		if *mode == "update" || *mode == "update+legacy" {
 			_ = t.UpdateTargets(&shard.UpdateTargetsRequest{Targets: N})
 		}
 		st, err := os.Stat(store)
@@ -182,8 +182,14 @@ func c09Child(args []string) int {
 		o := c09Obs{Limit: lim, FileLen: full}
 		_ = os.RemoveAll(*dir)
 		var pState, nState string
+		if *mode == "update+legacy" {
+			// a store directory that still holds the file of an old version (kvass never deletes it)
+			_ = os.MkdirAll(*dir, 0755)
+			lb, _ := json.Marshal(c09Assignment("states"))
+			_ = os.WriteFile(filepath.Join(*dir, "targets.json"), lb, 0644)
+		}
 		switch *mode {
-		case "update":
+		case "update", "update+legacy":
 			// a running sidecar that acknowledged P
 			run := newTM(*dir)
 			if err := run.Load(); err != nil {
@@ -304,6 +310,14 @@ func c09Cases(tier string) []c09Case {
 				cs = append(cs, c09Case{Kind: "sweep", P: p, N: n, Mode: "update", From: 0, To: -1, Stride: 211})
 			}
 		}
+	}
+	// the same sweep in a directory that also holds a stale old-version targets.json
+	for _, pr := range [][2]string{{"one", "empty"}, {"empty", "one"}, {"fifty", "empty"}, {"empty", "empty"}, {"one", "escape"}} {
+		st := int64(5)
+		if tier == "thorough" {
+			st = 1
+		}
+		cs = append(cs, c09Case{Kind: "sweep", P: pr[0], N: pr[1], Mode: "update+legacy", From: 0, To: -1, Stride: st})
 	}
 	for _, p := range shapes {
 		st := int64(3)
@@ -444,7 +458,7 @@ func init() {
 		Level: "fault_enumeration",
 		Rule: "fault = the write of the store file stops after exactly N bytes (RLIMIT_FSIZE=N in a child process running the real TargetsManager.UpdateTargets / Load; the kernel cuts the write, which leaves the disk as a kill or a full disk at byte N would); " +
 			"enumerated over ordered pairs (previous, new) of assignment shapes {empty, one, fifty, escape-heavy labels, mixed states, job move, other-one, 300 targets} x every offset N in 0..len(file)+2 (thorough: all pairs, stride 1; quick: stride 1 for four pairs and for the old-file-name path, stride 7/211 otherwise), " +
-			"plus the old-file-name fall-back interrupted while it is first rewritten, plus the process KILLED inside the store write at byte N (strace injects SIGKILL on the write() that follows the cut one, so no clean-up code runs; 4 pairs, thorough 8, strided offsets) followed by three restarts and an acknowledged follow-up update, plus SIGKILL of the real `kvass sidecar` binary during updates; after each fault a fresh manager loads the directory (after a cut write: twice, then a follow-up update and another restart); " +
+			"plus the old-file-name fall-back interrupted while it is first rewritten, plus the update sweep in a directory that still holds a stale old-version targets.json (5 pairs incl. empty assignments), plus the process KILLED inside the store write at byte N (strace injects SIGKILL on the write() that follows the cut one, so no clean-up code runs; 4 pairs, thorough 8, strided offsets) followed by three restarts and an acknowledged follow-up update, plus SIGKILL of the real `kvass sidecar` binary during updates; after each fault a fresh manager loads the directory (after a cut write: twice, then a follow-up update and another restart); " +
 			"non-trivial = a sweep chunk with at least one offset executed; distinct = (mode, previous, new, offset range)",
 		Assumptions: []string{
 			"a write cut by RLIMIT_FSIZE after N bytes leaves the same bytes on disk as a process killed / a disk filling up at that byte; later fsync/power-loss behaviour of the file system is out of scope",
